@@ -697,6 +697,16 @@ p("c17-p-flag-after-mark", "C17", IGF,
   "                self.marked[rule.left_term].add(frozenset())\n                was_modified = True")
 p("c17-p-flag-renamed-or", "C17", IGF,
   "                marked_left.add(new_temp)\n                res = True\n", "                marked_left.add(new_temp)\n                res |= True\n")
+b("c17-dup-counter-distinct-terms", "C17", IGF,
+  "                if right0 in duplication_pointer:\n                    duplication_pointer[right0].append(temp)\n                else:\n                    duplication_pointer[right0] = [temp]\n                if right1 in duplication_pointer:\n                    duplication_pointer[right1].append(temp)\n                else:\n                    duplication_pointer[right1] = [temp]\n",
+  "                for right in {right0, right1}:\n                    duplication_pointer.setdefault(right, []).append(temp)\n",
+  "duplication-counter-matches-registrations")
+p("c17-p-dup-counter-loop-occurrences", "C17", IGF,
+  "                if right0 in duplication_pointer:\n                    duplication_pointer[right0].append(temp)\n                else:\n                    duplication_pointer[right0] = [temp]\n                if right1 in duplication_pointer:\n                    duplication_pointer[right1].append(temp)\n                else:\n                    duplication_pointer[right1] = [temp]\n",
+  "                for right in (right0, right1):\n                    duplication_pointer.setdefault(right, []).append(temp)\n")
+p("c17-p-dup-counter-setdefault", "C17", IGF,
+  "                if right0 in duplication_pointer:\n                    duplication_pointer[right0].append(temp)\n                else:\n                    duplication_pointer[right0] = [temp]\n",
+  "                duplication_pointer.setdefault(right0, []).append(temp)\n")
 # ----------------------------------------------------------------------------- C18
 FCF = "pyformlang/fcfg/fcfg.py"
 FSF = "pyformlang/fcfg/feature_structure.py"
